@@ -111,6 +111,11 @@ func genC17(seed int64, tier string) *Scenario {
 			if rng.Intn(2) == 0 {
 				o.Cookie = "kamal-rollout=u" + fmt.Sprint(rng.Intn(4))
 			}
+			if rng.Intn(4) == 0 {
+				// descheduled somewhere on the request path until a drain / deploy step has happened
+				holdOp(rng, &o, []string{"drain.snapshot", "drain.marked", "drain.begin", "service.beforeDrain", "cmd.found", "router.install", "deploy.beforeDrain"})
+				o.Hold.Max = time.Duration(200+rng.Intn(1500)) * time.Millisecond
+			}
 			switch rng.Intn(6) {
 			case 0:
 				o.Sim = "mode=hang"
@@ -126,6 +131,46 @@ func genC17(seed int64, tier string) *Scenario {
 		}
 		sc.Actors = append(sc.Actors, a)
 	}
+	if rng.Intn(3) == 0 {
+		// two operators: a second one redeploys, rollout-deploys and removes the
+		// same service concurrently. Only the clauses that do not depend on a
+		// sequential command history are evaluated for such runs.
+		sc.Params = map[string]int{"concurrent_ops": 1}
+		b := ActorSpec{Name: "opB"}
+		for i := 0; i < 2+rng.Intn(4); i++ {
+			gen++
+			var o Op
+			switch rng.Intn(4) {
+			case 0, 1:
+				o = Op{Kind: "deploy", Service: "web", Targets: newTargets(fmt.Sprintf("h%d-", gen), 1+rng.Intn(2), pick(rng, 0, 2)), DeployTimeout: deployT, DrainTimeout: drainT}
+			case 2:
+				o = Op{Kind: "rollout_deploy", Service: "web", Targets: newTargets(fmt.Sprintf("q%d-", gen), 1, pick(rng, 0, 2)), DeployTimeout: deployT, DrainTimeout: drainT}
+			default:
+				o = Op{Kind: "remove", Service: "web"}
+			}
+			o.Delay = time.Duration(50+rng.Intn(600)) * time.Millisecond
+			if rng.Intn(2) == 0 {
+				alignOp(rng, &o, []string{"deploy.found", "deploy.probing", "deploy.healthy", "deploy.beforeUpdate", "deploy.beforeInstall", "router.install", "deploy.beforeDrain", "op.deploy", "op.remove"}, 6)
+				o.Delay = 800 * time.Millisecond
+			}
+			if i == 0 {
+				o.Delay += 100 * time.Millisecond
+			}
+			b.Ops = append(b.Ops, o)
+		}
+		if rng.Intn(3) == 0 {
+			// the second operator only removes, each time while a deploy of the
+			// first one is about to install (or has just installed) its copy
+			b.Ops = nil
+			for i := 0; i < 1+rng.Intn(3); i++ {
+				o := Op{Kind: "remove", Service: "web", Delay: 2 * time.Second}
+				alignOp(rng, &o, []string{"deploy.beforeUpdate", "deploy.beforeInstall", "router.install"}, 2*n)
+				b.Ops = append(b.Ops, o)
+			}
+		}
+		sc.Actors = append(sc.Actors, b)
+	}
+	addCensus(sc)
 	return sc
 }
 
@@ -173,11 +218,14 @@ func checkC17(r *RunResult) []Violation {
 		default:
 			bound = 0
 		}
-		if el > bound+z {
+		if el > bound+z && r.Sc.Params["concurrent_ops"] == 0 { // (overlapping deploys of one service queue behind each other)
 			out = append(out, Violation{Prop: "C17", Clause: "command-exceeded-bound", Msg: fmt.Sprintf("%s %s took %v (called #%d, returned #%d); bound is %v", c.Op.Kind, c.Op.Service, el, c.Call, c.Ret, bound)})
 		}
 		if el > c.Op.DeployTimeout-z && (c.Op.Kind == "deploy" || c.Op.Kind == "rollout_deploy") {
 			r.Probes["timeout_expired"]++
+		}
+		if r.Sc.Params["concurrent_ops"] != 0 {
+			continue // the clauses below assume a sequential command history
 		}
 		// promptness and probe hygiene
 		var stopProbing []string
@@ -256,6 +304,7 @@ func checkC17(r *RunResult) []Violation {
 			}
 		}
 	}
+	out = append(out, checkOrphanProbes(r, "C17")...)
 	if r.Leak != "" {
 		out = append(out, Violation{Prop: "C17", Clause: "goroutines-left-behind", Msg: "after teardown: " + trunc(r.Leak, 300)})
 	}
@@ -301,6 +350,58 @@ func lastExchangeEnd(r *RunResult, targets []string, before int) time.Duration {
 	}
 	began := map[string]bool{}
 	var last time.Duration
+	// A request goroutine that sits (descheduled: a hold, a CPU stall) between
+	// its claim and the exchange is in flight for the proxy although the target
+	// sees nothing: the drain rightly waits for it. A claim lasts from the step
+	// released at "lb.claim" until either it is given back (the request goes
+	// round to "service.gate" again: the give-back ran in the last step of the
+	// claim's chain, plus the automatic lock steps that directly follow it in
+	// the second build) or the request returns to the client.
+	ix := r.stepIdx()
+	retT := func() time.Duration { return r.H.Events[before-1].T }
+	for _, q := range r.W.Responses {
+		var start, end *Event
+		flush := func(givenBack bool) {
+			if start == nil || start.Seq >= before {
+				start = nil
+				return
+			}
+			t := retT() // still holding it when the command returned
+			if givenBack {
+				if tail := ix.lockTail(end, ""); tail.Seq < before {
+					t = tail.T
+				}
+			} else if q.Ret != 0 && q.Ret < before {
+				t = q.RetT
+			}
+			if t > last {
+				last = t
+			}
+			start = nil
+		}
+		var prev *Event
+		for _, e := range ix.byReq[q.ReqID] {
+			switch e.Info {
+			case "lb.claim":
+				flush(true)
+				start, end = e, e
+			case "service.claimed", "lb.claimed", "target.send", "target.sent":
+				if start == nil {
+					// "lb.claim" is switched off in this run: the claim was made in
+					// the step released at the request's previous yield point
+					start = e
+					if prev != nil {
+						start = prev
+					}
+				}
+				end = e
+			case "service.gate":
+				flush(true)
+			}
+			prev = e
+		}
+		flush(false)
+	}
 	for i := range r.H.Events {
 		e := &r.H.Events[i]
 		if !set[e.Target] || e.Req == "" {
